@@ -61,6 +61,15 @@ def gen(ctx):
                 for name in ("addne", "addap", "add"):
                     cases.append({"ops": [{"op": name, "path": path, "value": 9}], "doc": copy.deepcopy(gd), "grid": True})
     ctx.exhaustive_spaces.append("addne/addap/add x %d final tokens (names, '#'/'~'-prefixed look-alikes of existing members, indices, '-', '') x every location of %d documents" % (len(gtoks), len(gdocs)))
+    # member names that look URI-encoded, unicode-escaped or blank-padded: a patch path is taken literally in every form
+    pdoc = {"a%20b": 0, "a b": 1, "x%2Fy": [1], "x": {"y": 2}, "%7E": 3, "~": 4, "a+b": 5, "\\u0061": 6, "a": 7, " a": 8}
+    ptoks = ["a%20b", "a b", "x%2Fy", "x/y".replace("/", "~1"), "%7E", "~0", "a+b", "%", "%zz", "%41", " a"]
+    for t in ptoks:
+        for u in ptoks[:6]:
+            for op in ({"op": "add", "path": "/" + t, "value": 9}, {"op": "replace", "path": "/" + t, "value": 9}, {"op": "test", "path": "/" + t, "value": 0}, {"op": "remove", "path": "/" + t},
+                       {"op": "copy", "from": "/" + t, "path": "/" + u}, {"op": "move", "from": "/" + u, "path": "/" + t}, {"op": "addne", "path": "/" + t, "value": 9}):
+                if op["op"] in ("copy", "move") or u == ptoks[0]:
+                    cases.append({"ops": [op], "doc": copy.deepcopy(pdoc)})
     docs = [{}, {"a": [1]}, {"a": [], "b": {"k": []}}, [], {"a": {"0": 1}, "b": 1}, {"a": [[]], "1": 0}]
     for _ in range(1200 if ctx.tier == "quick" else 25000):
         cases.append({"ops": ops_pool(ctx.rng), "doc": copy.deepcopy(ctx.rng.choice(docs))})
